@@ -118,6 +118,7 @@ func init() {
 }
 
 func runC19(c *Ctx, r *Report) {
+	importFoundation(c, r, "C19", "platform-fresh")
 	r.Rule("C19/O1O2", "ignored sentinel only on the non-matching path and never after a store; no success without the store; stores only into the asserted target", 45)
 	r.Rule("C19/O3", "each option stores exactly the setting the specification names, taking the value from its own parameter or constant", 45)
 	r.Rule("C19/O4", "every constructor applies the full option list, in order, to every target type, skipping only the ignored sentinel", 10)
